@@ -103,9 +103,17 @@ def main():
         res["at"] = time.strftime("%H:%M:%S")
         with open(OUT, "a") as f:
             f.write(json.dumps(res) + "\n")
-        caught = bool(res.get("violations"))
+        known = set()
+        try:
+            for e in json.load(open("/verif/known_findings.json"))["findings"]:
+                if e.get("status") == "known":
+                    known.add(e["match"]["oracle"])
+        except Exception:
+            pass
+        res["new_oracles"] = [v["oracle"] for v in res.get("violations", []) if v["oracle"] not in known]
+        caught = bool(res["new_oracles"])
         print("%-40s %-5s %s %s" % (m["name"], m.get("prop"), "CAUGHT" if caught else "MISSED",
-                                     res.get("error") or [v["oracle"] for v in res.get("violations", [])]), flush=True)
+                                     res.get("error") or res["new_oracles"]), flush=True)
     sh("git -C %s checkout -- ." % WT)
 
 
